@@ -9,7 +9,11 @@
      disagreement tags (model and implementation differ: the theorems do not transfer):
         1  mask emptiness differs   2  action outside the model mask   3  done differs   5  model reward differs
         7  model step = None       12  episode not finished           20  instance outside wfb / solvableb / jssp_wfb
-       21  the model's own schedule is rejected by valid_scheduleb (cannot happen: FJSP_valid) *)
+       21  the model's own schedule is rejected by valid_scheduleb (cannot happen: FJSP_valid)
+     get_reward guard (check_reward_guard):
+     concrete 15  env.get_reward answered although a row of the batch is not finished (SchedBatch.b_reward = None)
+     disagree  5  the rewards returned differ from the model's    32  env.get_reward raised although every row is finished
+     stepwise_reward = True (check_C03_stepwise = HC07_fjsp.check_stepwise): concrete 4, disagree 5 / 17 / 18 / 19 *)
 From Coq Require Import ZArith List Bool Lia Arith.
 From RL4CO Require Import Spec.Schedule Env.FJSP Env.FJSPProofs Env.SchedBatch Harness.HC07_fjsp.
 Import ListNotations.
@@ -79,6 +83,36 @@ Definition check_C03_fjsp (c : c03_case) : Z :=
          end
   end.
 
+(* ---------------------------------------------------------------- C03 / C04: FJSPEnv._get_reward on a batch, incl. its guard *)
+(* (env kind, mask_no_ops, rows = (instance, the actions the row has taken so far), what env.get_reward(td, None) did:
+   None = it raised, Some = the rewards it returned) *)
+Definition rg_case := (bool * bool * list (inst * list nat) * option (list Z))%type.
+Fixpoint rg_rows (jssp cfg : bool) (rows : list (inst * list nat)) : Z + list (inst * st) :=
+  match rows with
+  | [] => inr []
+  | (i, acts) :: r =>
+      if negb (wfb i && solvableb i && (negb jssp || jssp_wfb i)) then inl 20
+      else match c03_run jssp cfg i (reset i) acts 0 with
+           | inl code => inl code
+           | inr s => match rg_rows jssp cfg r with inl c => inl c | inr l => inr ((i, s) :: l) end
+           end
+  end.
+Definition check_reward_guard (c : rg_case) : Z :=
+  match c with (jssp, cfg, rows, obs) =>
+    match rg_rows jssp cfg rows with
+    | inl code => code
+    | inr ms => match b_reward ms, obs with
+                | None, None => 0
+                | Some rs, Some os => if list_eqb Z.eqb rs os then 0 else 5
+                | None, Some _ => 15
+                | Some _, None => 32
+                end
+    end
+  end.
+
+(* ---------------------------------------------------------------- C03, stepwise_reward = True *)
+Definition check_C03_stepwise (c : sw_case) : Z := check_stepwise c.
+
 (* ---------------------------------------------------------------- C04: the row model reproduces a row of a batch *)
 Definition check_C04_fjsp (c : fjsp_case) : Z :=
   let w := wf_code c in if negb (w =? 0) then w else check_corr c.
@@ -99,5 +133,11 @@ Proof. vm_compute. reflexivity. Qed.
 Example c03_selftest : check_C03_fjsp (false, true, ex_i, [1; 4; 2; 0]%nat, -5) = 0 /\
                        check_C03_fjsp (false, true, ex_i, [1; 4; 2; 0]%nat, -6) = 4.
 Proof. vm_compute. split; reflexivity. Qed.
+Example reward_guard_selftest :
+  check_reward_guard (false, true, [(ex_i, [1; 4; 2]%nat); (ex_i, [1; 4]%nat)], None) = 0 /\
+  check_reward_guard (false, true, [(ex_i, [1; 4; 2]%nat); (ex_i, [1; 4]%nat)], Some [-5; -9999]) = 15 /\
+  check_reward_guard (false, true, [(ex_i, [1; 4; 2]%nat); (ex_i, [4; 1; 2; 0]%nat)], Some [-5; -5]) = 0 /\
+  check_reward_guard (false, true, [(ex_i, [1; 4; 2]%nat); (ex_i, [4; 1; 2; 0]%nat)], None) = 32.
+Proof. vm_compute. repeat split; reflexivity. Qed.
 Example jobview_selftest : check_jobview (ex_i, [7; 8; 9; 0], -1, 3%nat, [[7; 8; -1]; [9; -1; -1]]) = 0.
 Proof. vm_compute. reflexivity. Qed.
